@@ -159,3 +159,81 @@ Proof.
   - intros a b. unfold free_leaf. cbn. discriminate.
   - intros a b. unfold free_leaf, cpair. destruct (dg_gtb a b); cbn; discriminate.
 Qed.
+
+(* ---------------- the leaf-hash table ---------------- *)
+Lemma ltab_get_in : forall t i a m c, ltab_get t i a m = Some c -> In (i, a, m, c) t.
+Proof.
+  induction t as [|[[[i' a'] m'] c'] r IH]; intros i a m c; cbn [ltab_get]; [discriminate|].
+  destruct (N.eqb i i' && N.eqb a a' && Z.eqb m m') eqn:E.
+  - intros E2. inversion E2; subst. apply andb_prop in E. destruct E as [E E3].
+    apply andb_prop in E. destruct E as [E1 E2'].
+    apply N.eqb_eq in E1, E2'. apply Z.eqb_eq in E3. subst. left. reflexivity.
+  - intros E2. right. apply IH. exact E2.
+Qed.
+
+Lemma lkey_eqb_spec x y : lkey_eqb x y = true -> fst x = fst y.
+Proof.
+  destruct x as [[[i a] m] c], y as [[[i' a'] m'] c']. unfold lkey_eqb. cbn [fst snd].
+  intros E. apply andb_prop in E. destruct E as [E E3]. apply andb_prop in E. destruct E as [E1 E2].
+  apply N.eqb_eq in E1, E2. apply Z.eqb_eq in E3. subst. reflexivity.
+Qed.
+
+Lemma ltab_ok_spec : forall t l, ltab_ok t l = true ->
+  (forall e, In e l -> in_range t (snd e) = false) /\
+  (forall e e', In e l -> In e' l -> snd e = snd e' -> fst e = fst e').
+Proof.
+  induction l as [|e0 r IH]; intros Hok; [split; [intros ? []|intros ? ? []]|].
+  cbn [ltab_ok] in Hok. apply andb_prop in Hok. destruct Hok as [Hok Hr].
+  apply andb_prop in Hok. destruct Hok as [Hrange Hall].
+  destruct (IH Hr) as [IH1 IH2]. rewrite forallb_forall in Hall. split.
+  - intros e [<-|Hin]; [destruct (in_range t (snd e0)); [discriminate|reflexivity]|auto].
+  - assert (Hk : forall e', In e' r -> snd e' = snd e0 -> fst e' = fst e0).
+    { intros e' Hin Es. specialize (Hall _ Hin). apply orb_prop in Hall. destruct Hall as [Hn|Hk].
+      - rewrite Es, N.eqb_refl in Hn. discriminate.
+      - apply lkey_eqb_spec. exact Hk. }
+    intros e e' [<-|Hin] [<-|Hin'] Es; auto.
+    + symmetry. apply Hk; auto.
+Qed.
+
+(* on a well-formed header the leaf hashes the harness evaluated behave like an ideal leaf hash:
+   one digest is the hash of one (index, address, amount) only, and never the output of a pair hash *)
+Theorem ltab_hits_ideal : forall h, wf_hdr h = true ->
+  (forall i a m i' a' m' c,
+     ltab_get (h_ltab h) i a m = Some c -> ltab_get (h_ltab h) i' a' m' = Some c -> (i, a, m) = (i', a', m')) /\
+  (forall i a m c x y, ltab_get (h_ltab h) i a m = Some c -> At c <> Htab (h_tab h) x y).
+Proof.
+  intros h Hwf. unfold wf_hdr in Hwf. apply andb_prop in Hwf. destruct Hwf as [_ Hl].
+  destruct (ltab_ok_spec _ _ Hl) as [H1 H2]. split.
+  - intros i a m i' a' m' c E1 E2. apply ltab_get_in in E1, E2.
+    exact (H2 _ _ E1 E2 eq_refl).
+  - intros i a m c x y E Ec. apply ltab_get_in in E. specialize (H1 _ E). cbn [snd] in H1.
+    unfold Htab in Ec. destruct x as [x|? ?], y as [y|? ?]; try discriminate.
+    destruct (tab_get (h_tab h) x y) as [c'|] eqn:Eg; [|discriminate].
+    inversion Ec; subst c'. rewrite (in_range_of_get _ _ _ _ Eg) in H1. discriminate.
+Qed.
+
+(* ---------------- a witness for the hypotheses of the end-to-end theorems ---------------- *)
+(* free algebra with a formal leaf-hash constructor: H := FP, LH := FL *)
+Inductive fd := FL (i : N) (a : addr) (m : Z) | FP (x y : fd).
+Fixpoint fd_eqb (x y : fd) : bool :=
+  match x, y with
+  | FL i a m, FL i' a' m' => N.eqb i i' && N.eqb a a' && Z.eqb m m'
+  | FP a b, FP c d => fd_eqb a c && fd_eqb b d
+  | _, _ => false
+  end.
+Lemma fd_eqb_spec : forall x y, fd_eqb x y = true <-> x = y.
+Proof.
+  induction x as [i a m|a IHa b IHb]; destruct y as [i' a' m'|c d]; cbn [fd_eqb]; try (split; discriminate).
+  - rewrite !andb_true_iff, !N.eqb_eq, Z.eqb_eq. split; [intros [[-> ->] ->]; reflexivity|intros E; inversion E; auto].
+  - rewrite andb_true_iff, IHa, IHb. split; [intros [-> ->]; reflexivity|intros E; inversion E; auto].
+Qed.
+
+Example end_to_end_hypotheses_satisfiable :
+  (forall a b, fd_eqb a b = true <-> a = b) /\
+  (forall a b c d, FP a b = FP c d -> a = c /\ b = d) /\
+  (forall i a m i' a' m', FL i a m = FL i' a' m' -> (i, a, m) = (i', a', m')) /\
+  (forall i a m x y, FL i a m <> FP x y).
+Proof.
+  split; [exact fd_eqb_spec|]. split; [intros a b c d E; inversion E; auto|].
+  split; [intros i a m i' a' m' E; inversion E; reflexivity|intros; discriminate].
+Qed.
